@@ -41,7 +41,7 @@ class CHECK(FloCheck):
                   "C10_runs_irrespective_of_needs, C10_run_continues, C10_run_completes (exit, outline restored by "
                   "assignment, nothing entered), C10_recur_over_actives, C10_deactivize, C10_main_exit_exits_aux (WF), "
                   "C10_not_owner_noop (fix D3b: an auxiliary running for another frame is neither run nor exited by this "
-                  "clause), C10_running_is_owned (WF: the owner test never fails for the clause that started it). "
+                  "clause), C10_plain_and_conditional_noop (fix D3e), C10_running_is_owned (WF: the owner test never fails for the clause that started it). "
                   "PARTIAL: C10_suspended_frames needs the C05 invariant; C10_counterexample_D3 is the exception.")
     LEVEL_NOTE = ("Trusted: Lean kernel; axioms propext, Classical.choice, Quot.sound; transcription of Suspender.action "
                   "validated by the correspondence.")
@@ -64,7 +64,7 @@ class CHECK(FloCheck):
         return bool(flags) and want is not None and want in flags[0]
 
     def oracle(self, case, out):
-        prog = case["prog"]
+        prog = floeng.expand(case["prog"])      # named clones as explicit non-original auxiliaries
         m = floref.Machine(prog)                       # static structure only
         outline, owner, clauses, rec_after = {}, {}, [], {}
         ctx_of = {}                                    # frame -> contexts with recorder deeds
@@ -86,7 +86,7 @@ class CHECK(FloCheck):
                         clauses.append((g, it["aux"], it["needs"], later))
                 g += 1
         # an auxiliary named by several clauses is judged through its owner (`main`), see rules below; a clause whose
-        # auxiliary is also a plain auxiliary of the same frame is ambiguous in the trace (finding D3e, C05): skipped
+        # auxiliary is also a plain auxiliary of the same frame does nothing (fix D3e): skipped
         plain_of = {}
         g = 0
         for fr in prog["framers"]:
